@@ -248,6 +248,11 @@ parser! {
         pub rule directive_line() -> Document
             = space() l:label()? space() d:directive() space() os:directive_ops() space() comment()? ![_] { Document::DirectiveLine(Box::new(l), d, os) }
 
+        // what a line that is not assembled opens or closes is said by its directive alone: the operands need not be valid
+        // (`.if @0 == 1` in the body of a macro definition)
+        pub rule directive_head() -> Document
+            = space() label()? space() d:directive() [_]* { Document::DirectiveLine(Box::new(None), d, DirectiveOps::OpList(vec![])) }
+
         // a pragma whose text is not a list of operands (`#pragma AVRPART CORE NEW_INSTRUCTIONS lpm rd,z+`): kept as text
         rule pragma_line() -> Document
             = space() ("." / "#") "pragma" ne_space() t:$((!comment() [_])*) comment()? {
